@@ -17,9 +17,20 @@ PROP = dict(
                        "Comdex.C08.repay_split", "Comdex.C08.closeBorrow_split",
                        "Comdex.C08.accrual_split", "Comdex.C08.accrual_zero_elapsed", "Comdex.C08.reward_tracker_conserved", "Comdex.C08.reward_source",
                        "Comdex.C08.rejected_no_change", "Comdex.C08.killswitch_rejects_lend_ops", "Comdex.C08.killswitch_rejects_borrow_ops",
-                       "Comdex.C08.guards_reject_new_positions", "Comdex.C08.guards_reject_borrow", "Comdex.C08.depreciation_rejects"],
+                       "Comdex.C08.guards_reject_new_positions", "Comdex.C08.guards_reject_borrow", "Comdex.C08.depreciation_rejects",
+                       # depth round 2: id lists, life after the hand-over
+                       "Comdex.C08.ids_consistent", "Comdex.C08.id_lists_ascending", "Comdex.C08.delId_binary_search", "Comdex.C08.delId_needs_ascending",
+                       "Comdex.C08.lend_listed_exactly", "Comdex.C08.borrow_listed_exactly", "Comdex.C08.no_dangling_ids",
+                       "Comdex.C08.auctionClose_books", "Comdex.C08.auctionBid_books", "Comdex.C08.auctionClose_needs_lend",
+                       "Comdex.C08.auctionClose_stuck_counterexample",
+                       "Comdex.C08.reserve_ledger", "Comdex.C08.reserve_halves_step", "Comdex.C08.reserve_halves_drift_counterexample",
+                       "Comdex.C08.reserve_ledger_poolsweep_counterexample", "Comdex.C08.beginBlock_dead_after_deletion",
+                       "Comdex.C08.beginBlock_keeps_pending",
+                       "Comdex.C08.books_across_migration", "Comdex.C08.reserve_ledger_across_migration", "Comdex.C08.migration_switches_off",
+                       "Comdex.C08.migration_leak_counterexample"],
     harness_tests=["TestC08"],
-    monitors=["total_lend", "total_lend_orphaned", "total_borrowed", "total_stable", "ltv", "ltv_exact", "pool_funds", "pledged_safe"],
+    monitors=["total_lend", "total_lend_orphaned", "total_borrowed", "total_stable", "ltv", "ltv_exact", "pool_funds", "pledged_safe",
+              "ids_consistent", "reserve_ledger", "reserve_ledger_poolsweep", "reserve_halves", "migration_leak"],
     trusted_base=[KERNEL_TB, HARNESS_TB, DEC_TB,
                   "extract/effects (go/ast, no type checking): ordered bank calls of the fourteen lend messages with path conditions, texts "
                   "normalised; PINNED in Props/C08Effects.lean against a reviewed literal by party / denomination role (13 + 13 abstract texts), "
@@ -34,16 +45,20 @@ PROP = dict(
                   "recomputed by Model/LendAccrual.lean (index arithmetic of C18's Model/LendRates.lean) and compared bit for bit with the "
                   "real records after every message; the ledger theorems still quantify over all amounts",
                   "bank module (x/bank), protobuf (de)serialisation and the KV store are exercised, not modelled; the model's bank is an association list",
-                  "the liquidation DECISION (which borrow is handed over, C09) and the auction that follows are not modelled: only the effect of "
-                  "UpdateLockedBorrows on the lending books"],
+                  "the liquidation DECISION (which borrow is handed over, C09) and the auction-side arithmetic of a bid (C10) are not modelled: the "
+                  "amounts a bid moves between bidder, auction module, owner and app reserve are inputs of the ops bid / auctionClose; the lend side of "
+                  "the hand-over (UpdateLockedBorrows) and of the close (MsgCloseDutchAuctionForBorrow) is modelled exactly and compared",
+                  "the first generation (x/liquidation LiquidateBorrows / CreteNewBorrow, x/auction dutch_lend.go) is not modelled"],
     assumptions=[
                  "ESM kill switch and pool depreciation are modelled as state and guards (toggled by the harness); their governance paths are not",
                  "amounts below 2^63 and Dec values below the 315-bit overflow limit (harness amounts are below 10^14)",
                  "static configuration (assets, rates params, pools, pairs) over a history; oracle prices may change between messages",
                  "denominations are in one-to-one correspondence with asset ids"],
-    rule="each case is one generated history (24 quick / 300 thorough, 45-160 messages each, plus three fixed histories: two defect witnesses and a twin-lend scenario) on a fresh "
+    rule="each case is one generated history (24 quick / 300 thorough, 45-160 messages each, plus eleven fixed histories: defect witnesses and directed coverage of the auction "
+         "close, e-mode, isolated collateral, the second transit asset, the block hook and the store migration) on a fresh "
          "app: 4 users, 2 pools x 3 assets, 18 pairs (same-pool, cross-pool via transit assets, one e-mode pair, optional isolated / "
-         "stable-rate collateral, optional tight supply cap), time gaps of seconds to a year, price moves, V2 liquidations; amounts solved "
+         "stable-rate collateral, optional tight supply cap), time gaps of seconds to a year, price moves, V2 liquidations (keeper call, keeper message, "
+         "real sweep), real bids on the resulting Dutch auctions (partial fills, closing bids), the store migration in every fourth history; amounts solved "
          "for equality of every comparison (availableToBorrow, AmountIn, pool balance, LTV, bridged LTV, repayment branches) and their "
          "neighbours; 18 % malformed messages (wrong owner / denom / app / pool / ids, zero and negative amounts, above-limit amounts); "
          "distinct = distinct trace text, non-trivial = at least one message accepted",
@@ -62,8 +77,13 @@ META = dict(
          "share + lender share + principal + at most one token of dust; the accrual bookkeeping (amounts from rates, indices, reward tracker) is "
          "in the model and loses nothing; kill switch / depreciated pool reject every guarded message without change. One defect of the real code is reproduced and carried as a "
          "kernel-checked counterexample and known finding D19: a liquidation hand-over deletes a lend position that still has availableToBorrow "
-         "(total lent no longer matches). A second one (BorrowAsset accepted a pair registered for another asset of the pool, valuing the pledged "
+         "(total lent no longer matches). Depth round 2: histories go on through partial fills and the closing bid of the second-generation auction "
+         "(the borrow disappears, the lend stays debited, identities hold throughout); the LendIds / BorrowIds lists of every pool-asset record are exactly "
+         "the ids of its live positions, ascending (binary-search removal proved exact); the reserve module balance equals genesis plus recorded inflows "
+         "minus recorded outflows for every asset over all histories without block-hook runs; the store migration 2->3 keeps all books. Findings D35 (block "
+         "hook sweeps pool funds into the reserve unrecorded and is dead afterwards) and D36 (migration leaks flags between records) are carried as "
+         "counterexamples and known findings. A second one (BorrowAsset accepted a pair registered for another asset of the pool, valuing the pledged "
          "cTokens at the wrong price) was found by this check and is repaired in the tree; the model carries the guard and a regression example.",
     note="Trusted: Lean kernel, the Dec model (differentially tested), the hand-written model as far as the correspondence run exercises it. "
-         "Interest and reward amounts are inputs; ESM kill switch / pool depreciation, the liquidation decision and the auction are outside the model.",
+         "Rates are inputs; the liquidation decision, the auction-side amounts of a bid and the first generation are outside the model.",
 )
